@@ -177,14 +177,14 @@ Theorem C15_roundtrip_state : forall (cvs : list (cvinfo (T := R))) (g g0 : grid
 Proof. exact state_roundtrip. Qed.
 Print Assumptions C15_roundtrip_state.
 
-(* Malformed restart data are rejected: a block that is never closed, fewer boundaries than variables,
+(* Malformed restart data are rejected (every carrier): a block that is never closed, fewer boundaries than variables,
    fewer values than the grid (as defined by the parameters just read) has elements. *)
-Theorem C15_state_malformed_rejected : forall (cvs : list (cvinfo (T := R))) (g0 : grid R),
-  (forall toks, ~ In TClose toks -> read_restart Rops cvs g0 toks = None) /\
-  (forall conf vals, lookup KLower conf = Some vals -> (lead Rops vals < length (gr_lower g0))%nat ->
-     parse_params Rops cvs g0 conf = None) /\
-  (forall toks conf s g1, read_block toks = Some (conf, s) -> parse_params Rops cvs g0 conf = Some g1 ->
-     grid_wf g1 -> (lead Rops (strip s) < length (gr_data g1))%nat -> read_restart Rops cvs g0 toks = None).
+Theorem C15_state_malformed_rejected : forall (T : Type) (O : NumOps T) (cvs : list (cvinfo (T := T))) (g0 : grid T),
+  (forall toks, ~ In TClose toks -> read_restart O cvs g0 toks = None) /\
+  (forall conf vals, lookup KLower conf = Some vals -> (lead O vals < length (gr_lower g0))%nat ->
+     parse_params O cvs g0 conf = None) /\
+  (forall toks conf s g1, read_block toks = Some (conf, s) -> parse_params O cvs g0 conf = Some g1 ->
+     grid_wf g1 -> (lead O (strip s) < length (gr_data g1))%nat -> read_restart O cvs g0 toks = None).
 Proof. exact state_malformed_rejected. Qed.
 Print Assumptions C15_state_malformed_rejected.
 
@@ -216,4 +216,23 @@ Proof.
   - reflexivity.
   - reflexivity.
   - reflexivity.
+Qed.
+
+(* non-vacuity of the rejection theorems and of the "same shape / same geometry" premises: a stream that ends
+   after one number, a block that is never closed, a lower_boundaries line with one value for two variables, a
+   strict prefix of the written multicolumn stream.  (That read_block and parse_params succeed on a written
+   restart stream -- the premises of the third clause of C15_state_malformed_rejected -- is what
+   C15_roundtrip_state proves on its way.) *)
+Example C15_example_rejection_premises :
+  same_shape ex_grid ex_grid /\ same_geom ex_grid ex_grid /\
+  (lead Rops (strip [TNum 1%R; TNl; TBad]) < length (gr_data ex_grid))%nat /\
+  ~ In TClose [TKey KGridParams; @TOpen R; TNl; TKey KNColvars; TInt 2%Z] /\
+  lookup KLower [TKey KNColvars; TInt 2%Z; TNl; TKey KLower; TNum 1%R; TNl] = Some [TNum 1%R] /\
+  (lead Rops [TNum 1%R] < length (gr_lower ex_grid))%nat /\
+  (20 < length (strip (write_multicol Rops ex_grid)))%nat.
+Proof.
+  split; [split; reflexivity|]. split; [repeat split; reflexivity|].
+  split; [cbn; lia|]. split; [intros [H|[H|[H|[H|[H|[]]]]]]; discriminate|].
+  split; [reflexivity|]. split; [cbn; lia|].
+  replace (length (strip (write_multicol Rops ex_grid))) with 36%nat by (symmetry; apply C15_example_grid_premises). lia.
 Qed.
